@@ -10,7 +10,9 @@ boundaries, close/reopen read-only and writable, copy and move of datasets and g
 `merge_files`, packing further files, deleting datasets and groups, embedding another file at a
 path that held a file earlier in the same session (deleted, moved away or discarded with its
 patch), discarding an open IH5 patch and doing it again differently, copy/move onto such freed
-paths). Reads are either done at every node after every step or (sparse histories) only by
+paths; "layered" histories: nested groups filled over several containers and touched again in
+the open patch, then copied / moved at every depth, also several times and back, see
+`gen_layered`). Reads are either done at every node after every step or (sparse histories) only by
 explicit `read` steps, at reopen and at the end, so that both "read before" and "never read
 before" orders occur.
 
@@ -123,13 +125,26 @@ def _below(a, p):
 
 class _Tree:
     """expected layout of one container: datasets (path -> content) and groups (also empty ones).
-    Used by the generator (content = file index) and by the real-code runner (content = bytes)."""
+    Used by the generator (content = file index) and by the real-code runner (content = bytes).
+    `born[p]` = number of the container generation (IH5: base container / patch) in which the node at p
+    was written; `now` = the generation that is being written (diagnostic + generator bias only)."""
 
-    def __init__(self, ds=None, grps=None):
-        self.ds, self.grps = dict(ds or {}), set(grps or ())
+    def __init__(self, ds=None, grps=None, born=None, now=0):
+        self.ds, self.grps, self.born, self.now = dict(ds or {}), set(grps or ()), dict(born or {}), now
 
     def clone(self):
-        return _Tree(self.ds, self.grps)
+        return _Tree(self.ds, self.grps, self.born, self.now)
+
+    def commit(self, flatten=False):
+        """a container boundary (flatten: merge_files puts everything into one new base container)"""
+        self.now += 1
+        if flatten:
+            self.born = {p: self.now for p in self.born}
+            self.now += 1
+
+    def spans(self, a):
+        """generations the embedded files at / below a were written in"""
+        return {self.born.get(p, 0) for p in self.under(a)}
 
     def occupied(self, p):
         """creating a node at p is not possible (p exists, or a parent of p is a dataset)"""
@@ -140,6 +155,7 @@ class _Tree:
 
     def put(self, p, v):
         self.ds[p] = v
+        self.born[p] = self.now
         self.grps.update(_prefixes(p))
 
     def copy(self, a, b):
@@ -152,12 +168,14 @@ class _Tree:
     def remove(self, a):
         for p in self.under(a):
             del self.ds[p]
+            self.born.pop(p, None)
         self.grps -= {g for g in self.grps if _below(a, g)}
 
     def move(self, a, b):
         self.copy(a, b)
         # what was below a is gone, what was copied to b stays (b is never below a)
         self.ds = {p: v for p, v in self.ds.items() if not _below(a, p)}
+        self.born = {p: v for p, v in self.born.items() if p in self.ds}
         self.grps = {g for g in self.grps if not _below(a, g)}
 
 
@@ -175,11 +193,13 @@ class _Side:
     def expect(self):
         return self.tree.ds
 
-    def committed(self):
-        """the state now is what `discard` returns to. IH5: the caller has just committed a patch;
-        plain HDF5 has no patches: keep a copy of the flushed file."""
+    def committed(self, flatten=False):
+        """the state now is what `discard` returns to. IH5: the caller has just committed a patch
+        (flatten: and merged all containers into one); plain HDF5 has no patches: keep a copy of the
+        flushed file."""
         import shutil
 
+        self.tree.commit(flatten)
         self.snap = self.tree.clone()
         if self.drv == "h5":
             self.mc.flush()
@@ -378,7 +398,7 @@ def impl(case):
                                 s.mc.close()
                                 s.name = newname
                                 s.mc = s._open("r+")
-                            s.committed()
+                            s.committed(flatten=True)
                         tags.add("merge")
                     elif k in ("copy", "move"):
                         a, b = op[1], op[2]
@@ -393,6 +413,15 @@ def impl(case):
                             except Exception as e:  # noqa: BLE001
                                 oracle.append(dict(kind="history-step-fails", driver=s.drv, step=step, op=op, exc=type(e).__name__, msg=str(e)[:100]))
                                 continue
+                            if op[3] and moved:
+                                sp = s.tree.spans(a)
+                                tags.add("%s-group-depth=%d" % (k, min(a.count("/") + 1, 3)))
+                                if any("/" in p[len(a) + 1:] for p in moved):
+                                    tags.add(k + "-group-with-subgroups")
+                                if len(sp) >= 2:
+                                    tags.add(k + "-group-files-of-several-containers")
+                                    if s.tree.now in sp:
+                                        tags.add(k + "-group-files-of-older-containers-and-open-patch")
                             getattr(s.tree, k)(a, b)
                             if moved and b in seen:
                                 tags.add("path-reused")
@@ -414,7 +443,13 @@ def impl(case):
                         # read one embedded file fully (the only reads of a sparse history besides reopen / end)
                         for s in sides:
                             if op[1] in s.expect:
-                                s.check_node(step, oracle, op[1], s.mc[op[1]], s.expect[op[1]])
+                                try:
+                                    n = s.mc[op[1]]
+                                except Exception as e:  # noqa: BLE001 - the embedded file is not there
+                                    oracle.append(dict(kind="read-fails", driver=s.drv, step=step, path=op[1], exc=type(e).__name__,
+                                                       content=s.expect[op[1]].hex()))
+                                    continue
+                                s.check_node(step, oracle, op[1], n, s.expect[op[1]])
                         tags.add("read-one")
                     else:
                         raise ValueError("unknown step %r" % (op,))
@@ -635,6 +670,7 @@ def gen_hist(rng, cat):
 
     def commit(k):
         ops.append([k])
+        st["tree"].commit(k == "merge")
         st["snap"] = st["tree"].clone()
 
     for _ in range(rng.randrange(2, 5)):
@@ -670,7 +706,7 @@ def gen_hist(rng, cat):
             k = rng.choice(["copy", "move"])
             gs = sorted(st["tree"].grps)
             if gs and rng.random() < 0.35:
-                a, isg = rng.choice(gs), True
+                a, isg = _pick_group(rng, st["tree"]), True
             else:
                 a, isg = rng.choice(sorted(ds())), False
             fr = [p for p in freed() if not _below(a, p)]
@@ -706,6 +742,129 @@ def gen_hist(rng, cat):
     return case
 
 
+def _pick_group(rng, tree):
+    """a group of the layout; preferably one whose embedded files were written in several containers
+    (and of those, one that also got a file in the generation being written)"""
+    gs = sorted(tree.grps)
+    several = [g for g in gs if len(tree.spans(g)) >= 2]
+    open_too = [g for g in several if tree.now in tree.spans(g)]
+    r = rng.random()
+    if open_too and r < 0.5:
+        return rng.choice(open_too)
+    if several and r < 0.7:
+        return rng.choice(several)
+    return rng.choice(gs)
+
+
+def gen_layered(rng, cat):
+    """histories about GROUPS that hold embedded files of several containers: a skeleton of nested groups is
+    filled in 2-4 layers separated by container boundaries (patch boundary, reopen, sometimes merge); in the
+    last, still open layer some of the groups get further files (or lose / replace one), and then groups of
+    every depth (leaf group, inner group, top group, with files of older containers only, of the open patch
+    only, or of both) are copied and moved -- to the top level, into another group of the skeleton, into a
+    new group, back onto the name they had -- possibly several times, with further files embedded into the
+    group under its new name, followed by boundary / reopen / merge. Every embedded file is re-read under
+    its new path after every step (sparse: at explicit reads, at reopen and at the end)."""
+    files = [rng.choice(cat) for _ in range(2)] + [rand_bytes(rng) for _ in range(rng.randrange(1, 3))]
+    files = [f for f in files if f != b"\x7f"] or [b""]
+    tree, ever, ops, cnt = _Tree(), set(), [], [0]
+    sparse = rng.random() < 0.5
+    nm = lambda: rng.choice(["d", "e", "data", "runs.2", "g-h", "x"])  # noqa: E731
+    # skeleton: a chain of 1-3 nested groups, side branches off it, and a separate top group
+    top = nm()
+    skel = [top]
+    for _ in range(rng.randrange(0, 3)):
+        skel.append(skel[-1] + "/" + nm())
+    for _ in range(rng.randrange(0, 3)):
+        g = rng.choice(skel) + "/" + nm() + "2"
+        if g not in skel:
+            skel.append(g)
+    skel.append("o" + nm())
+
+    def fresh(pre=""):
+        cnt[0] += 1
+        return "%sm%d" % (pre, cnt[0])
+
+    def pack(g=None):
+        if g is None:
+            live = [x for x in skel if x in tree.grps]
+            # mostly into groups that already hold files (of older containers)
+            g = rng.choice(live) if live and rng.random() < 0.7 else rng.choice(skel)
+        if g in tree.ds or any(q in tree.ds for q in _prefixes(g + "/x")):
+            return
+        t = g + "/" + fresh() + rng.choice(["", ".bin"])
+        ops.append(["pack", rng.randrange(len(files)), t, rng.random() < 0.1])
+        tree.put(t, ops[-1][1])
+        ever.add(t)
+        if sparse and rng.random() < 0.4:
+            ops.append(["read", t])
+
+    def commit(k=None):
+        k = k or rng.choice(["boundary", "boundary", "reopen", "reopen", "merge"])
+        ops.append([k])
+        tree.commit(k == "merge")
+
+    layers = rng.randrange(2, 5)
+    for layer in range(layers):
+        for _ in range(rng.randrange(1, 3 if layer else 4)):
+            pack()
+        if layer < layers - 1:
+            if layer and tree.ds and rng.random() < 0.2:
+                ops.append(["del", rng.choice(sorted(tree.ds))])
+                tree.remove(ops[-1][1])
+            commit()
+    # the open layer: copy / move groups
+    names = {}  # group -> a name it had earlier
+    for _ in range(rng.randrange(1, 5)):
+        gs = sorted(g for g in tree.grps if tree.under(g))
+        if not gs:
+            break
+        a = _pick_group(rng, tree) if rng.random() < 0.8 else rng.choice(gs)
+        if not tree.under(a):
+            continue
+        k = rng.choice(["move", "move", "copy"])
+        r = rng.random()
+        back = [p for p in sorted(ever | set(names.values())) if not tree.occupied(p) and not _below(a, p)
+                and all(q in tree.grps for q in _prefixes(p))]
+        others = [g for g in sorted(tree.grps) if not _below(a, g) and g != a]
+        if r < 0.35:
+            b = fresh("")                                   # top level
+        elif r < 0.55 and others:
+            b = rng.choice(others) + "/" + fresh("")        # into an existing group
+        elif r < 0.70:
+            b = fresh("new") + "/" + fresh("")              # into a group that does not exist yet
+        elif r < 0.85 and "/" in a:
+            b = a.rsplit("/", 1)[0] + "/" + fresh("")       # renamed in place
+        elif back:
+            b = rng.choice(back)                            # onto a path that was in use earlier
+        else:
+            b = fresh("")
+        if tree.occupied(b) or _below(a, b):
+            continue
+        ops.append([k, a, b, True])
+        getattr(tree, k)(a, b)
+        names[b] = a
+        ever.update(tree.under(b))
+        r = rng.random()
+        if r < 0.3:
+            pack(b)                                          # one more file into the group under its new name
+        elif r < 0.4 and k == "move" and not tree.occupied(a) and all(q in tree.grps for q in _prefixes(a)):
+            ops.append(["move", b, a, True])                 # and back
+            tree.move(b, a)
+        elif r < 0.5:
+            commit("boundary")
+        if sparse and tree.ds and rng.random() < 0.5:
+            ops.append(["read", rng.choice(sorted(tree.ds))])
+    commit(rng.choice(["boundary", "reopen"]))
+    if rng.random() < 0.5:
+        commit("merge")
+    commit("reopen")
+    case = dict(kind="hist", files=[f.hex() for f in files], ops=ops)
+    if sparse:
+        case["sparse"] = True
+    return case
+
+
 def gen_cases(ctx, scale=1.0):
     rng = ctx.rng
     cat = catalogue(rng)
@@ -722,6 +881,8 @@ def gen_cases(ctx, scale=1.0):
         cases.append(dict(kind="bytes", full=True, data=[rand_bytes(rng).hex() for _ in range(8)]))
     for _ in range(int((40 if ctx.quick else 600) * scale)):
         cases.append(gen_hist(rng, cat))
+    for _ in range(int((20 if ctx.quick else 400) * scale)):
+        cases.append(gen_layered(rng, cat))
     return cases
 
 
@@ -744,6 +905,10 @@ def run(ctx):
                 "(patch boundary, reopen r and r+, merge_files, copy/move of datasets and groups also onto paths that held a file before, further packs at fresh "
                 "paths and at paths freed in the same session, pack onto existing path, delete dataset / group, replace = delete + embed another file at the same path, "
                 "discard the open IH5 patch [plain HDF5: back to the file copy of the last boundary] and fill the dropped paths differently); "
+                "(hist, layered) a skeleton of nested groups (depth 1-4, side branches) filled in 2-4 layers separated by patch boundary / reopen / merge, "
+                "further files embedded into (or removed from) the same groups in the open patch, then 1-4 copy/move steps of groups of every depth "
+                "(files of older containers only / of the open patch only / of both; chosen with preference for both) to the top level, into another group, "
+                "into a new group, renamed in place, onto a path used earlier, and back, with further embeds under the new name, then boundary/reopen/merge; "
                 "all embedded files are re-read and compared after every step, or (30 %, sparse) only at explicit read steps, at reopen and at the end. Non-trivial = tagged (length class, trailing NUL, marker, step kinds).")
     ctx.trusted.append("harness/translate_c17.py (Python ast -> Lean) + value dictionary Model/BytesPy.lean for _h5_wrap_bytes, _is_del_mark, _node_is_del_mark, "
                        "_guard_value, hashsum, qualified_hashsum, file_hashsum; bridge theorems Bridge/BytesFns.lean re-checked on every run")
